@@ -33,10 +33,48 @@ def run(ctx):
     r3_dispatch(ctx, tt)
     r4_accidental(ctx, tt)
     r5_no_unbounded_recursion(ctx, tt, eng)
+    r6_every_node_visited(ctx, tt)
     from . import c09
     ctx.alias = {'R4': 'R2'}
     c09.r4_delegation(ctx)       # the chain transpose -> transpose_agnostics -> AgnosticPitch.to_transposed forwards interval and direction
     ctx.alias = {}
+
+
+def r6_every_node_visited(ctx, tt):
+    """The walk over the clone reaches every node: in the work-list loop of to_transposed (or of a helper it was extracted to) no
+    path leaves the loop early, and every path hands ALL children of the current node to the work list - unconditionally."""
+    loops = [n for f in ([tt] + [g for g in _SCOPE if g is not tt]) for n in walk_local(f.node) if isinstance(n, ast.While)]
+    loops = [w for w in loops if any(isinstance(c, ast.Call) and isinstance(c.func, ast.Attribute) and c.func.attr in ('get', 'pop', 'popleft')
+                                     for c in ast.walk(w))]
+    if not loops:
+        ctx.note('R6', tt.loc, tt.qualname, 'no work-list loop: the traversal is delegated (judged by R5 / the scope rules)')
+        return
+    for w in loops:
+        at = f'{tt.module.relpath}:{w.lineno}'
+        bad = []
+        n = 0
+        for sp in symex.sym_paths(w.body, fi=tt):
+            n += 1
+            if sp.end in ('break', 'return'):
+                bad.append(f'a path leaves the walk with `{sp.end}` (under `{G.show(sp.condition())[:70]}`)')
+                continue
+            if sp.end == 'raise':
+                continue
+            pushed = False
+            its = [e for e in sp.events if e.kind == 'iter' and src(e.expr).endswith('.children')]
+            skipped = [e for e in sp.events if e.kind == 'skip' and src(e.expr).endswith('.children')]
+            for e in sp.events:
+                if e.kind == 'expr' and isinstance(e.expr, ast.Call) and isinstance(e.expr.func, ast.Attribute):
+                    m = e.expr.func.attr
+                    if m in ('extend', 'extendleft') and e.expr.args and ('.children' in src(e.expr.args[0])):
+                        pushed = True
+                    if m in ('put', 'append', 'appendleft', 'put_nowait') and its:
+                        pushed = True
+            if not pushed and not skipped:
+                bad.append(f'a path does not hand the children of the node to the work list (under `{G.show(sp.condition())[:70]}`)')
+        ctx.check(not bad and n > 0, 'R6', at, tt.qualname, 'walk-reaches-every-node',
+                  f'the walk over the clone cannot stop early and pushes all children of every node ({n} paths through the loop body)',
+                  '; '.join(sorted(set(bad))[:2]) + ': notes that lie after that point keep their source pitch')
 
 
 _SCOPE = []
